@@ -864,7 +864,7 @@ def run_obst(ctx, case, model=True):
             if amb[(l.lanelet_id, k)]:
                 continue
             if (k in got) != truth[(l.lanelet_id, k)]:
-                _fail(ctx, "C06/get_obstacles/" + _what(truth, truthc, ambc, l.lanelet_id, k) + "/" + kko(l.lanelet_id, k),
+                _fail(ctx, "C06/get_obstacles/" + _what(truth, truthc, ambc, l.lanelet_id, k, specs[k]) + "/" + kko(l.lanelet_id, k),
                          f"lanelet {l.lanelet_id}.get_obstacles(t={t}) {'contains' if k in got else 'omits'} obstacle {k} with occupancy "
                          f"{specs[k]}; polygon meets the occupancy: {truth[(l.lanelet_id, k)]}", sub(l.lanelet_id, k))
         if len(got) != len(set(got)):
@@ -885,7 +885,7 @@ def run_obst(ctx, case, model=True):
                 for o in obs:
                     k = o["id"]
                     if not amb[(i, k)] and (k in got) != truth[(i, k)]:
-                        _fail(ctx, "C06/map_obstacles_to_lanelets/" + _what(truth, truthc, ambc, i, k) + "/" + kko(i, k),
+                        _fail(ctx, "C06/map_obstacles_to_lanelets/" + _what(truth, truthc, ambc, i, k, specs[k]) + "/" + kko(i, k),
                                  f"map_obstacles_to_lanelets: lanelet {i} -> {got}; obstacle {k} ({specs[k]}) meets the lanelet polygon: "
                                  f"{truth[(i, k)]}", sub(i, k))
             for i, got in mp.items():
@@ -909,7 +909,7 @@ def run_obst(ctx, case, model=True):
                 if (k in got) != sure_in:
                     kf = "group" if any(kko(i, k) == "group" for i in ids) else kind_key(specs[k])
                     what = "misses" if sure_in else "reports"
-                    if sure_in and any(truthc[(i, k)] and not ambc[(i, k)] for i in ids):
+                    if sure_in and geom.has_circle(specs[k]) and any(truthc[(i, k)] and not ambc[(i, k)] for i in ids):
                         what = "misses-within-half-radius"
                     _fail(ctx, "C06/filter_obstacles_in_network/" + what + "/" + kf,
                              f"filter_obstacles_in_network {'keeps' if k in got else 'drops'} obstacle {k} ({specs[k]}); it meets a "
@@ -931,11 +931,11 @@ def run_obst(ctx, case, model=True):
                         "filter_obstacles_in_network vs CR.Index.filterObstacles")
 
 
-def _what(truth, truthc, ambc, i, k):
-    """misses / reports; a miss that the known r/2 export of circles does not explain gets its own class."""
+def _what(truth, truthc, ambc, i, k, spec):
+    """misses / reports; a miss of a shape with circles that the known r/2 export does not explain gets its own class."""
     if not truth[(i, k)]:
         return "reports"
-    return "misses-within-half-radius" if truthc[(i, k)] and not ambc[(i, k)] else "misses"
+    return "misses-within-half-radius" if geom.has_circle(spec) and truthc[(i, k)] and not ambc[(i, k)] else "misses"
 
 
 def run_case(ctx, case, model=True):
